@@ -61,8 +61,11 @@ Fixpoint normal_edits (es : list (edit line)) (lpos rpos : Z) : list line :=
     end
   end.
 
-Definition normal_lines (cs : list (chunk line)) : list line :=
-  flat_map (fun c => normal_edits (edits c) (LStart c) (RStart c)) cs.
+(* lpos, rpos := c.LStart, c.RStart *)
+Definition normal_chunk_lines (c : chunk line) : list line :=
+  normal_edits (edits c) (normal_lpos_init (LStart c) (LEnd c) (RStart c) (REnd c))
+                         (normal_rpos_init (LStart c) (LEnd c) (RStart c) (REnd c)).
+Definition normal_lines (cs : list (chunk line)) : list line := flat_map normal_chunk_lines cs.
 
 Definition normal (cs : list (chunk line)) : bytes := join_lines (normal_lines cs).
 
@@ -82,8 +85,11 @@ Section Headers.
 
   (* ---- Unified ---- *)
   Definition uhunk_header (v : variant) (c : chunk line) : line :=
-    s_atat ++ [32%N] ++ uspan v s_minus (LStart c) (LEnd c) ++ [32%N]
-           ++ uspan v s_plus (RStart c) (REnd c) ++ [32%N] ++ s_atat.
+    s_atat ++ [32%N]
+      ++ uspan v s_minus (unified_lspan_lo (LStart c) (LEnd c) (RStart c) (REnd c))
+                         (unified_lspan_hi (LStart c) (LEnd c) (RStart c) (REnd c)) ++ [32%N]
+      ++ uspan v s_plus (unified_rspan_lo (LStart c) (LEnd c) (RStart c) (REnd c))
+                        (unified_rspan_hi (LStart c) (LEnd c) (RStart c) (REnd c)) ++ [32%N] ++ s_atat.
 
   Definition uedit_lines (e : edit line) : list line :=
     match eop e with
@@ -137,9 +143,11 @@ Section Headers.
     end.
 
   Definition cchunk_lines (c : chunk line) : list line :=
-    [s_stars15; s_sss ++ dspan (LStart c) (LEnd c) ++ s_4stars]
+    [s_stars15; s_sss ++ dspan (context_old_lo (LStart c) (LEnd c) (RStart c) (REnd c))
+                               (context_old_hi (LStart c) (LEnd c) (RStart c) (REnd c)) ++ s_4stars]
     ++ (if has_relevant_edits (edits c) Drop then flat_map cedit_old (edits c) else [])
-    ++ [s_mmm ++ dspan (RStart c) (REnd c) ++ s_4dashes]
+    ++ [s_mmm ++ dspan (context_new_lo (LStart c) (LEnd c) (RStart c) (REnd c))
+                       (context_new_hi (LStart c) (LEnd c) (RStart c) (REnd c)) ++ s_4dashes]
     ++ (if has_relevant_edits (edits c) Copy then flat_map cedit_new (edits c) else []).
 
   Definition context_header (fi : option file_info) : list line :=
